@@ -272,7 +272,10 @@ type mergeOutcome struct {
 
 // runMerge drives merge.Merger the way the CLI does. resolve decides what to
 // save for each reported conflict (nil = remove the row).
-func runMerge(t *testing.T, st *Store, baseSum []byte, otherSums [][]byte, hashBatch uint32, output string, workers int) (out *mergeOutcome, err error) {
+// consumer "early" asks the merger for its columns and key right after the first message, as
+// `wrgl merge --no-gui` (outputConflicts) does, instead of draining the channel first.
+func runMerge(t *testing.T, st *Store, baseSum []byte, otherSums [][]byte, hashBatch uint32, output string, workers int, consumer ...string) (out *mergeOutcome, err error) {
+	early := len(consumer) > 0 && consumer[0] == "early"
 	out = &mergeOutcome{}
 	baseT, err := objects.GetTable(st, baseSum)
 	if err != nil {
@@ -314,8 +317,21 @@ func runMerge(t *testing.T, st *Store, baseSum []byte, otherSums [][]byte, hashB
 		return nil, err
 	}
 	var merges []*merge.Merge
+	var earlyCols, earlyPK []string
 	for m := range mch { // drain first, as collectMergeConflicts does
 		merges = append(merges, m)
+		if early && len(merges) == 1 {
+			earlyCols = append([]string(nil), merger.Columns(nil)...)
+			earlyPK = append([]string(nil), merger.PK()...)
+		}
+	}
+	if early && len(merges) > 0 {
+		if !rowsEqual(earlyCols, merger.Columns(nil)) || !rowsEqual(earlyPK, merger.PK()) {
+			if st.Sched != nil {
+				st.Sched.SetActive(true)
+			}
+			return nil, fmt.Errorf("merger reported columns %q / key %q right after the column diff message and %q / %q once the channel was drained", earlyCols, earlyPK, merger.Columns(nil), merger.PK())
+		}
 	}
 	if st.Sched != nil {
 		st.Sched.SetActive(true)
